@@ -827,10 +827,11 @@ impl<Front: SocketHandler + std::fmt::Debug, L: ListenerHandler + L7ListenerHand
                     _ => -2,
                 };
                 format!(
-                    "gid={} link={} win={} front={} back={}",
+                    "gid={} link={} win={} bwin={} front={} back={}",
                     gid,
                     link,
                     stream.window,
+                    stream.back_window,
                     Self::verif_kawa(&stream.front),
                     Self::verif_kawa(&stream.back)
                 )
